@@ -228,16 +228,31 @@ func checkC17(c *core.Ctx, l *core.Ledger) {
 		})
 	}
 	if f := c.SSAFunc(c.LookupFunc("internal/plugin", "MultiServiceGenerator.Generate")); f != nil {
-		for _, cl := range core.WithClosures(f) {
+		// the merge may live in the fan-out closure or in a helper/method of the package it calls
+		seen := map[*ssa.Function]bool{}
+		var visit func(g *ssa.Function, depth int)
+		visit = func(g *ssa.Function, depth int) {
+			if g == nil || seen[g] || len(g.Blocks) == 0 {
+				return
+			}
+			seen[g] = true
 			has := false
-			core.Instrs(cl, func(in ssa.Instruction) {
-				if _, ok := in.(*ssa.MapUpdate); ok {
+			core.Instrs(g, func(in ssa.Instruction) {
+				if mu, ok := in.(*ssa.MapUpdate); ok && strings.HasPrefix(core.TypeLabel(mu.Map.Type()), "map[string]") {
 					has = true
 				}
+				if call, ok := in.(ssa.CallInstruction); ok && depth < 3 {
+					if cal := call.Common().StaticCallee(); cal != nil && cal.Pkg == f.Pkg {
+						visit(cal, depth+1)
+					}
+				}
 			})
-			if has {
-				checkGuardedInsertMulti(c, l, cl)
+			if has && g != f {
+				checkGuardedInsertMulti(c, l, g)
 			}
+		}
+		for _, cl := range core.WithClosures(f) {
+			visit(cl, 0)
 		}
 	} else {
 		l.Unk("CONFLICT", "MultiServiceGenerator.Generate", "", "not found")
@@ -301,16 +316,23 @@ func checkC17(c *core.Ctx, l *core.Ledger) {
 		l.Unk("DOTDOT", "serviceGenerator.Generate", "", "not found")
 	}
 	if f := c.SSAFunc(c.LookupFunc("", "do")); f != nil {
-		va := callsIn(f, "verifyAncestry")
-		fa := callsIn(f, "findCommonAncestor")
 		gens := callsIn(f, "Generate")
-		ok := len(va) == 1 && len(fa) == 1 && len(gens) == 1
-		why := "verifyAncestry/findCommonAncestor/gen.Generate calls not found"
+		var genCall ssa.Instruction
+		for _, g := range gens {
+			if cal := g.(ssa.CallInstruction).Common().StaticCallee(); cal != nil && core.PkgRel(cal) == "gen" {
+				genCall = g
+			}
+		}
+		ok := genCall != nil
+		why := "gen.Generate call not found"
 		if ok {
-			// gen.Generate is reachable only after one of the two, on its success edge
-			var edges []core.Edge
-			edges = append(edges, successEdges(f, func(call *ssa.Call) bool { return ssa.Instruction(call) == va[0] || ssa.Instruction(call) == fa[0] })...)
-			if !core.AllPathsThroughEdges(f, gens[0].Block(), edges) {
+			// gen.Generate is reachable only after verifyAncestry or findCommonAncestor succeeded — called
+			// directly or through a helper that succeeds only after one of them did
+			edges := core.CallGuardEdgesDeep(f, func(call *ssa.Call) bool {
+				cal := call.Call.StaticCallee()
+				return cal != nil && core.PkgRel(cal) == "" && (cal.Name() == "verifyAncestry" || cal.Name() == "findCommonAncestor")
+			}, 2)
+			if len(edges) == 0 || !core.AllPathsThroughEdges(f, genCall.Block(), edges) {
 				ok, why = false, "generation can start without a verified or computed Thrift root"
 			}
 		}
@@ -436,7 +458,7 @@ func checkGuardedInsertMulti(c *core.Ctx, l *core.Ledger, cl *ssa.Function) {
 			return
 		}
 		n++
-		key := fmt.Sprintf("MultiServiceGenerator.Generate:insert#%d(%s)", n, core.TypeLabel(mu.Map.Type()))
+		key := fmt.Sprintf("plugin-merge:insert#%d(%s)", n, core.TypeLabel(mu.Map.Type()))
 		var edges []core.Edge
 		core.Instrs(cl, func(i2 ssa.Instruction) {
 			lk, ok := i2.(*ssa.Lookup)
